@@ -148,7 +148,9 @@ func fillerSpec(real uint64) chainkit.BlockSpec {
 		classes[classB] = classBDef
 		d.DeployedContracts[contractAddr] = &classA
 	}
-	d.StorageDiffs[contractAddr] = map[felt.Felt]*felt.Felt{*chainkit.F(1): chainkit.F(5 + real)}
+	if real%1024 == 1 {
+		d.StorageDiffs[contractAddr] = map[felt.Felt]*felt.Felt{*chainkit.F(1): chainkit.F(5 + real)}
+	}
 	return chainkit.BlockSpec{Version: "0.13.2", Timestamp: 1_700_000_000 + real, Diff: d, Classes: classes}
 }
 
@@ -177,8 +179,7 @@ func fastAppend(n *chainkit.Node, spec chainkit.BlockSpec) error {
 // ------------------------------------------------------------------ base images
 
 type baseImage struct {
-	twin   *memory.Database // unpruned chain 0..off (block off = specification block (0,1))
-	pruned *memory.Database // the same chain pruned up to off (oldest retained = off)
+	pruned *memory.Database // chain 0..off pruned up to off (block off = specification block (0,1)): small
 	b0     *chainkit.Built  // the built specification block (0,1)
 }
 
@@ -187,9 +188,7 @@ var (
 	baseCache = map[string]*baseImage{}
 )
 
-type baseFile struct {
-	Twin, Pruned []faultkv.KV
-}
+const baseSeed = 7 // the base image does not depend on the behaviour's content seed
 
 func loadMem(kvs []faultkv.KV) (*memory.Database, error) {
 	m := memory.New()
@@ -203,30 +202,27 @@ func loadMem(kvs []faultkv.KV) (*memory.Database, error) {
 }
 
 // getBase builds (or loads from the run's scratch directory) the base image for a scenario whose
-// specification block 0 is real block off.
-func getBase(seed int64, off uint64, newState bool) (*baseImage, error) {
+// specification block 0 is real block off: off plain blocks, the block (0,1), pruned up to off.
+func getBase(off uint64, newState bool) (*baseImage, error) {
 	baseMu.Lock()
 	defer baseMu.Unlock()
-	name := fmt.Sprintf("crash-base-%d-%d-%v.gob", seed, off, newState)
+	name := fmt.Sprintf("crash-base-%d-%v.gob", off, newState)
 	if b, ok := baseCache[name]; ok {
 		return b, nil
 	}
 	img := &baseImage{}
 	path := filepath.Join(vh.Scratch(), name)
 	if f, err := os.Open(path); err == nil {
-		var bf baseFile
-		err = gob.NewDecoder(f).Decode(&bf)
+		var kvs []faultkv.KV
+		err = gob.NewDecoder(f).Decode(&kvs)
 		f.Close()
 		if err == nil {
-			if img.twin, err = loadMem(bf.Twin); err != nil {
-				return nil, err
-			}
-			if img.pruned, err = loadMem(bf.Pruned); err != nil {
+			if img.pruned, err = loadMem(kvs); err != nil {
 				return nil, err
 			}
 		}
 	}
-	if img.twin == nil {
+	if img.pruned == nil {
 		mem := memory.New()
 		n := chainkit.NewNode(mem, newState)
 		for r := uint64(0); r < off; r++ {
@@ -234,35 +230,29 @@ func getBase(seed int64, off uint64, newState bool) (*baseImage, error) {
 				return nil, fmt.Errorf("base filler %d: %w", r, err)
 			}
 		}
-		b0, err := n.Append(blockSpec(seed, off, 0, 1))
-		if err != nil {
+		if _, err := n.Append(blockSpec(baseSeed, off, 0, 1)); err != nil {
 			return nil, fmt.Errorf("base block: %w", err)
 		}
-		_ = b0
-		img.twin = mem
-		img.pruned = mem.Copy()
-		if _, _, err := pruner.PruneUpto(context.Background(), img.pruned, off, bigBatch); err != nil {
+		if _, _, err := pruner.PruneUpto(context.Background(), mem, off, bigBatch); err != nil {
 			return nil, fmt.Errorf("base prune: %w", err)
 		}
-		var bf baseFile
-		if bf.Twin, err = faultkv.Dump(img.twin); err != nil {
-			return nil, err
-		}
-		if bf.Pruned, err = faultkv.Dump(img.pruned); err != nil {
+		img.pruned = mem
+		kvs, err := faultkv.Dump(mem)
+		if err != nil {
 			return nil, err
 		}
 		if f, err := os.Create(path + ".tmp"); err == nil {
-			if gob.NewEncoder(f).Encode(&bf) == nil && f.Close() == nil {
+			if gob.NewEncoder(f).Encode(kvs) == nil && f.Close() == nil {
 				_ = os.Rename(path+".tmp", path)
 			}
 		}
 	}
-	// re-derive the built block (0,1) from the twin image (hash -> id bookkeeping needs it)
-	tn := chainkit.NewNode(img.twin.Copy(), newState)
+	// re-derive the built block (0,1) (the hash -> id bookkeeping needs it)
+	tn := chainkit.NewNode(img.pruned.Copy(), newState, blockchain.WithRunningEventFilterInitializer(pruner.InitializeRunningEventFilter))
 	if err := tn.BC.RevertHead(); err != nil {
 		return nil, fmt.Errorf("base: revert to rebuild block 0: %w", err)
 	}
-	b0, err := tn.Build(blockSpec(seed, off, 0, 1))
+	b0, err := tn.Build(blockSpec(baseSeed, off, 0, 1))
 	if err != nil {
 		return nil, err
 	}
@@ -289,6 +279,9 @@ type world struct {
 	byHash   map[felt.Felt]bk
 	ver      map[int]int
 	plain    bool // archive-node wiring: default running-filter initialiser (no prune operations)
+	// freshAfterFail: a block whose store failed is not offered again; the next attempt stores a
+	// different block of that number (fault enumeration only; the replay follows the spec)
+	freshAfterFail bool
 
 	// shadow flags used only to classify a monitor failure (never to decide one)
 	failedOps        []string
@@ -328,20 +321,21 @@ func newWorld(c consts, seed int64, newState bool, backend string, plain bool) (
 		if backend == "pebble" {
 			return nil, errors.New("boundary scenarios run on the memory backend only")
 		}
-		img, err := getBase(seed, w.off, newState)
+		img, err := getBase(w.off, newState)
 		if err != nil {
 			return nil, err
 		}
 		if plain {
-			w.raw = img.twin.Copy()
-		} else {
-			w.raw = img.pruned.Copy()
+			return nil, errors.New("archive-node wiring runs from an empty database only")
 		}
-		twinDB = img.twin.Copy()
+		// the twin never prunes further; starting it from the pruned image too keeps both
+		// databases small (the legacy state readers copy the whole memory database per iterator)
+		w.raw = img.pruned.Copy()
+		twinDB = img.pruned.Copy()
 		w.note(bk{0, 1}, img.b0)
 		w.ver[0] = 2
 	}
-	w.twin = chainkit.NewNode(twinDB, newState)
+	w.twin = chainkit.NewNode(twinDB, newState, blockchain.WithRunningEventFilterInitializer(pruner.InitializeRunningEventFilter))
 	if err := w.boot(); err != nil {
 		return nil, err
 	}
@@ -480,6 +474,8 @@ func (w *world) store(mode faultkv.Mode, k int) opResult {
 			r.kind = "error"
 			return r
 		}
+		w.ver[n]++
+	} else if w.freshAfterFail && r.kind == "failed" {
 		w.ver[n]++
 	}
 	return r
@@ -1149,7 +1145,11 @@ func (w *world) evaluate(bc *blockchain.Blockchain, store db.KeyValueStore) []vi
 }
 
 func (w *world) cmpState(sym string, a, b core.StateReader, add adder) {
-	for _, slot := range []uint64{1, 2, 3} {
+	slots := []uint64{1, 2, 3}
+	if sym == "hist-state" {
+		slots = []uint64{1} // every history read copies the memory database
+	}
+	for _, slot := range slots {
 		va, ea := a.ContractStorage(&contractAddr, chainkit.F(slot))
 		vb, eb := b.ContractStorage(&contractAddr, chainkit.F(slot))
 		if errClass(ea) != errClass(eb) || !va.Equal(&vb) {
